@@ -411,6 +411,42 @@ func (en *Engine) runTables(fc *FuncContract, res *UnitResult) {
 			e.obligeCl(fin, fmt.Sprintf("table%d", i+1), goal, &fc.Ensures[i])
 		}
 	}
+	// every "given" of a unit of this package is a claim about the state the initialisers leave behind: it is proved
+	// here, on the executed initialisers, so that no given is an unchecked assumption
+	seen := map[string]bool{}
+	var names []string
+	for n := range en.CS.Funcs {
+		names = append(names, n)
+	}
+	sort.Strings(names)
+	k := 0
+	for _, n := range names {
+		g := en.CS.Funcs[n]
+		if g.Pkg != fc.Pkg || g == fc {
+			continue
+		}
+		for gi := range g.Given {
+			cl := g.Given[gi]
+			key := fmt.Sprintf("%v", cl.E)
+			if seen[key] {
+				continue
+			}
+			seen[key] = true
+			k++
+			cl.Props = g.Props
+			t, ok := e.safeCompile(c, cl, "given of "+shortName(n))
+			if !ok {
+				continue
+			}
+			goal, consts := skolemize(t, fmt.Sprintf("skg%d_", k))
+			for _, d := range consts {
+				e.declOnce(d)
+			}
+			e.extraUses = append(e.extraUses, g.Uses...)
+			clc := cl
+			e.obligeCl(fin, fmt.Sprintf("given%d", k), goal, &clc)
+		}
+	}
 	en.finish(e, fc, res)
 }
 
@@ -480,6 +516,11 @@ func skolemize(goal string, prefix string) (string, []string) {
 	}
 	binders := g[i+1 : j] // "(x S) (y T)"
 	body := strings.TrimSpace(g[j+1 : len(g)-1])
+	if strings.HasPrefix(body, "(! ") { // an instantiation pattern has no meaning once the quantifier is gone
+		if op, args := sexprArgs(body); op == "!" && len(args) >= 1 {
+			body = args[0]
+		}
+	}
 	var consts []string
 	ren := map[string]string{}
 	k := 0
